@@ -688,6 +688,9 @@ def expand_new_comprehensions(fnode, ref: dict) -> int:
             elif isinstance(st, ast.Expr) and isinstance(st.value, ast.Call) and isinstance(st.value.func, ast.Attribute) and st.value.func.attr == "extend" and isinstance(st.value.func.value, ast.Name) \
                     and len(st.value.args) == 1 and isinstance(st.value.args[0], (ast.GeneratorExp, ast.ListComp)):
                 comp, tgt, mode = st.value.args[0], st.value.func.value.id, "extend"
+            elif isinstance(st, ast.AugAssign) and isinstance(st.op, ast.Add) and isinstance(st.target, ast.Name) and isinstance(st.value, (ast.GeneratorExp, ast.ListComp)):
+                # `x += (<gen>)` is the canonical notation of `x.extend(<gen>)`
+                comp, tgt, mode = st.value, st.target.id, "extend"
             ret_form = False
             if comp is None and isinstance(st, ast.Return) and isinstance(st.value, (ast.ListComp, ast.DictComp, ast.SetComp)):
                 # `return [..comprehension..]`: accumulate into the local the reference had for it (first reference local that is gone)
